@@ -45,7 +45,7 @@ def strip(k):
 def main():
     prefix, suffix = sys.argv[1], sys.argv[2]
     ids = sys.argv[3:] or [p for p in PROPS]
-    base = {p: {strip(k) for k in ks} for p, ks in all_keys("/repo").items()}
+    base = {p: {strip(k) for k in ks} for p, ks in all_keys(os.environ.get("BASE_REPO", "/repo")).items()}
     os.makedirs(os.path.join(V, "neutral"), exist_ok=True)
     mpath = os.path.join(V, "neutral", f"MATRIX-{suffix}.json")
     matrix = json.load(open(mpath)) if os.path.exists(mpath) else {}
